@@ -103,6 +103,7 @@ func runCond(t *testing.T, steps []condStep) ([]Ev, bool, string) {
 							g.mu.Unlock()
 						} else {
 							held = 1
+							g.mu.Unlock() // recorded as a violation; released so that the run can go on
 						}
 					} else {
 						// Wait re-locked for us: the mutex must be locked now
@@ -124,8 +125,9 @@ func runCond(t *testing.T, steps []condStep) ([]Ev, bool, string) {
 			case "broadcast":
 				r.emit(Ev{"ev": "broadcast"})
 				c.Broadcast()
-			case "cancel":
-				if entered[st.W] {
+			case "cancel": // also before the waiter has entered: Wait is then called with a context that has already ended
+				if st.W > 0 {
+					r.Ctx(st.W)
 					r.mu.Lock()
 					r.evs = append(r.evs, Ev{"ev": "cancel", "w": st.W, "t": r.now()})
 					cancel := r.ctxs[st.W]
